@@ -31,6 +31,14 @@ func init() {
 		}
 		return nil, errors.New("neither on nor off")
 	}
+	ref.CustomAppend["CSV"] = func(cur reflect.Value, s string) (reflect.Value, error) {
+		if s == "bad" {
+			return cur, errors.New("bad")
+		}
+		out := append(decl.CSV{}, cur.Interface().(decl.CSV)...)
+		out = append(out, strings.Split(s, ",")...)
+		return reflect.ValueOf(out), nil
+	}
 	os.Unsetenv("GO_FLAGS_COMPLETION")
 }
 
@@ -247,6 +255,15 @@ func comparePositionals(c *explore.Ctx, b *decl.Built, res *ref.Result, sigPrefi
 			}
 			if bad {
 				continue
+			}
+		} else if a.Type.IsMap() {
+			want = reflect.Zero(a.Type.RT)
+			if len(texts) > 0 {
+				nv, err := ref.Apply(ref.Empty(a.Type.RT), a.BaseN(), texts[len(texts)-1])
+				if err != nil {
+					continue
+				}
+				want = nv
 			}
 		} else {
 			if len(texts) == 0 {
